@@ -252,10 +252,46 @@ def simulate_replayable(sc, rng, max_steps=3000):
     return st, trace
 
 
+def _work(spec, q):
+    q.put(check_scenario(spec))
+
+
 def run_scenarios(specs, jobs=NCPU):
+    """one process per scenario, at most `jobs` at a time, each under its own wall-clock limit (spec['timeout']):
+    a scenario that does not finish is reported as inconclusive, never as passed"""
     ctx = mp.get_context("fork")
-    with ctx.Pool(min(jobs, len(specs)) or 1) as pool:
-        return pool.map(check_scenario, specs, chunksize=1)
+    q = ctx.Queue()
+    pending = list(specs)
+    running = {}
+    results = {}
+    while pending or running:
+        while pending and len(running) < jobs:
+            spec = pending.pop(0)
+            p = ctx.Process(target=_work, args=(spec, q))
+            p.start()
+            running[spec["name"]] = (p, spec, time.time())
+        try:
+            r = q.get(timeout=2)
+            results[r["name"]] = r
+            p, _, _ = running.pop(r["name"], (None, None, None))
+            if p is not None:
+                p.join(5)
+        except Exception:
+            pass
+        now = time.time()
+        for name, (p, spec, t0) in list(running.items()):
+            limit = spec.get("timeout", 600)
+            dead = (not p.is_alive()) and name not in results and q.empty() and now - t0 > 5
+            if now - t0 > limit or dead:
+                if p.is_alive():
+                    p.terminate()
+                    why = f"not finished within {limit}s (solver still running): inconclusive"
+                else:
+                    why = "worker process died"
+                results[name] = {"name": name, "queries": [], "violations": [], "harness_errors": [f"{name}: {why}"] if dead else [],
+                                 "inconclusive": [f"{name}: {why}"], "wall_s": round(now - t0, 1)}
+                running.pop(name)
+    return [results[s["name"]] for s in specs]
 
 
 def second_solver(path, timeout=600):
